@@ -93,6 +93,8 @@ pub struct Model {
     pub admin: String,
     pub former_admin: Option<String>,
     pub nominee: Option<String>,
+    /// the nominee replaced by the latest nomination or revocation (must have lost the right to accept)
+    pub superseded: Option<String>,
     pub earliest: Option<u64>,
     pub batches: BTreeMap<u64, MBatch>,
     pub pending: u64,
